@@ -619,13 +619,15 @@ pub fn run_check<C: Check>(chk: &C, tier: Tier) -> Outcome {
 		}
 	}
 	println!(
-		"summary check={id} runs={n} ticks={} ops={} coverage_tuples={} (nontrivial {}) violations={new_violations} known={} wall={wall:.1}s log_hash={:016x}",
+		"summary check={id} runs={n} ticks={} ops={} coverage_tuples={} (nontrivial {}) violations={new_violations} known={} wall={wall:.1}s log_hash={:016x} verdicts_checked={} verdicts_exempt={}",
 		total.ticks,
 		total.ops,
 		all_cov.len(),
 		nontrivial_cov.len(),
 		known_seen.len(),
-		total.log_hash
+		total.log_hash,
+		total.checked,
+		total.exempt
 	);
 	Outcome {
 		exit: i32::from(new_violations > 0),
